@@ -3,73 +3,12 @@
 #[cfg(kani)]
 mod verif_kani_compaction {
     use super::*;
-    use crate::storage::segment::SegmentHeader;
 
-    const N: usize = 3;
-
-    fn any_state() -> SegmentState {
-        if kani::any() { SegmentState::Frozen } else { SegmentState::Thawed }
-    }
-
-    /// C18 (bounded: exactly 3 frozen segments that all qualify as sources - threshold 2.0 - with
-    /// arbitrary used sizes 1..=segment_size <= 2^40): every move of the merge plan
-    ///  - names two different existing segments and copies the source's used bytes [0, used)
-    ///  - lands behind the destination's own used bytes (never onto bytes the destination uses)
-    ///  - stays inside the segment size
-    ///  - does not overlap any other move into the same destination
-    /// and total_bytes is the sum of the move lengths.
-    #[kani::proof]
-    #[kani::unwind(5)]
-    fn merge_plan_bounded() {
-        // concrete segment size: the u64 -> f64 conversion and f64 division of the utilisation test
-        // with a symbolic divisor is what kept the fully symbolic version from finishing
-        let seg_size: u64 = 1 << 20;
-        let wp: [u64; N] = kani::any();
-        let mut i = 0;
-        while i < N {
-            kani::assume(wp[i] >= 1 && wp[i] <= seg_size);
-            i += 1;
-        }
-        // the planner never reads SegmentInfo::header; an all-zero bit pattern is a valid value of this
-        // plain-data type and avoids symbolically executing 16 header constructions
-        #[allow(unsafe_code)]
-        fn hdr() -> SegmentHeader {
-            unsafe { core::mem::zeroed() }
-        }
-        let segs: [SegmentInfo; N] = [
-            SegmentInfo { index: 0, state: SegmentState::Frozen, write_position: wp[0], header: hdr() },
-            SegmentInfo { index: 1, state: SegmentState::Frozen, write_position: wp[1], header: hdr() },
-            SegmentInfo { index: 2, state: SegmentState::Frozen, write_position: wp[2], header: hdr() },
-        ];
-        let n = N;
-        let plan = plan_archive_merge(&segs, 2.0, seg_size);
-        let m = plan.moves.len();
-        assert!(m < N, "at most n-1 moves");
-        let mut total: u64 = 0;
-        let mut a = 0;
-        while a < m {
-            let ma = &plan.moves[a];
-            let (s, d) = (ma.source_segment as usize, ma.dest_segment as usize);
-            assert!(s < n && d < n && s != d, "moves name two different existing segments");
-            assert!(ma.source_offset == 0 && ma.length == segs[s].write_position, "a move copies exactly the source's used bytes");
-            assert!(ma.dest_offset >= segs[d].write_position, "never directs data onto bytes the destination already uses");
-            assert!(ma.dest_offset + ma.length <= seg_size, "never fills a segment beyond its size");
-            let mut b = 0;
-            while b < a {
-                let mb = &plan.moves[b];
-                if mb.dest_segment == ma.dest_segment {
-                    assert!(mb.dest_offset + mb.length <= ma.dest_offset || ma.dest_offset + ma.length <= mb.dest_offset, "two moves into one destination never overlap");
-                }
-                b += 1;
-            }
-            total += ma.length;
-            a += 1;
-        }
-        assert!(plan.total_bytes == total, "total_bytes is the sum of the move lengths");
-        kani::cover!(m == 2);
-        kani::cover!(m == 1);
-        kani::cover!(m == 0);
-    }
+    // plan_archive_merge is NOT under a harness: its source selection compares `used as f64 /
+    // segment_size as f64` with the threshold, so the length of the `sources` vector is symbolic for
+    // CBMC even when every segment qualifies, and std's sort_by_key is then explored through its
+    // quicksort recursion (median3_rec) - three attempts (4, 3 and 2 segments) ran 25 minutes each
+    // without leaving symbolic execution.  Verus rejects f64.  The planner is reported as not decided.
 
     pub fn empty_format(_args: core::fmt::Arguments<'_>) -> String {
         String::new()
